@@ -27,7 +27,7 @@ inductive Prim (env : Env) : St → St → Prop
       Prim env st { st with
         bsQueries := st.bsQueries ++ [key]
         cache := st.cache ++ [(key, (p.get key).membership)]
-        status := updateStatus st.status (some (p.get key).status) }
+        status := updateStatus st.status (p.get key).status }
   | memCheck (st : St) (key ref : String) :
       Prim env st { st with memChecks := st.memChecks ++ [(key, ref)] }
   | log (st : St) (l : LogLine) : env.opts.logger = true →
@@ -523,7 +523,127 @@ theorem evaluate_no_provider {env : Env} (h : env.bs = none) (f : Flag) :
   obtain ⟨st, hr, _, _, _, _, hq, _⟩ := evaluate_reach env f
   rw [hq]; exact (reach_no_provider h hr).1
 
-/-! ### Status: once set it stays set, and its priority never decreases -/
+/-! ### Status: its priority never decreases, NOT_CONFIGURED is absorbing
+
+A provider may return any string, `""` included (`BSAnswer.status = none`).  What survives is stated
+in terms of `statusPriority` (`getBigSegmentsStatusPriority`, 0 for `""`).  "Once set it stays set"
+is true only when the provider never answers `""` (`AnswersNonEmpty`), which holds in particular
+when every answer carries one of the four constants (`AnswersFourConstants`). -/
+
+theorem Status.priority_le_three (s : Status) : s.priority ≤ 3 := by
+  cases s <;> simp [Status.priority]
+
+theorem statusPriority_le_three (s : Option Status) : statusPriority s ≤ 3 := by
+  cases s with
+  | none => exact Nat.zero_le _
+  | some s => exact s.priority_le_three
+
+theorem Status.eq_notConfigured_of_priority {s : Status} (h : 3 ≤ s.priority) :
+    s = .notConfigured := by
+  cases s <;> simp [Status.priority] at h ⊢
+
+theorem eq_notConfigured_of_statusPriority {s : Option Status} (h : 3 ≤ statusPriority s) :
+    s = some .notConfigured := by
+  cases s with
+  | none => simp [statusPriority] at h
+  | some s => rw [Status.eq_notConfigured_of_priority h]
+
+/-- The merged status has the larger of the two priorities. -/
+theorem statusPriority_updateStatus (old new : Option Status) :
+    statusPriority (updateStatus old new) = max (statusPriority old) (statusPriority new) := by
+  rw [updateStatus_eq]
+  split <;> omega
+
+theorem statusPriority_updateStatus_right (old new : Option Status) :
+    statusPriority new ≤ statusPriority (updateStatus old new) := by
+  rw [statusPriority_updateStatus]; omega
+
+theorem statusPriority_updateStatus_left (old new : Option Status) :
+    statusPriority old ≤ statusPriority (updateStatus old new) := by
+  rw [statusPriority_updateStatus]; omega
+
+/-- The merge returns `new` unless `old` has a strictly higher priority. -/
+theorem updateStatus_of_priority_le {old new : Option Status}
+    (h : statusPriority old ≤ statusPriority new) : updateStatus old new = new := by
+  rw [updateStatus_eq, if_neg (by omega)]
+
+theorem updateStatus_of_priority_gt {old new : Option Status}
+    (h : statusPriority new < statusPriority old) : updateStatus old new = old := by
+  rw [updateStatus_eq, if_pos h]
+
+theorem updateStatus_notConfigured_right (old : Option Status) :
+    updateStatus old (some .notConfigured) = some .notConfigured :=
+  updateStatus_of_priority_le (statusPriority_le_three old)
+
+theorem updateStatus_notConfigured_left (new : Option Status) :
+    updateStatus (some .notConfigured) new = some .notConfigured := by
+  rw [updateStatus_eq]
+  split
+  · rfl
+  · rename_i h
+    exact eq_notConfigured_of_statusPriority (by simpa [statusPriority, Status.priority] using h)
+
+theorem Prim.status_priority {env : Env} {a b : St} (hp : Prim env a b) :
+    statusPriority a.status ≤ statusPriority b.status := by
+  cases hp with
+  | setNotConfigured => exact statusPriority_le_three _
+  | mergeStatus old => exact statusPriority_updateStatus_right _ _
+  | query key p _ _ => exact statusPriority_updateStatus_left _ _
+  | _ => exact Nat.le_refl _
+
+/-- The priority of the status never decreases during an evaluation. -/
+theorem reach_status_priority {env : Env} {a b : St} (h : Reach env a b) :
+    statusPriority a.status ≤ statusPriority b.status :=
+  Reach.invariant₂ (R := fun a b => statusPriority a.status ≤ statusPriority b.status)
+    (fun _ => Nat.le_refl _) (fun _ _ _ h1 hp => Nat.le_trans h1 hp.status_priority) h
+
+/-- A status of positive priority (STALE, STORE_ERROR, NOT_CONFIGURED) never disappears again. -/
+theorem reach_status_some_of_priority {env : Env} {a b : St} (h : Reach env a b)
+    (ha : 0 < statusPriority a.status) : b.status.isSome := by
+  have hb := Nat.lt_of_lt_of_le ha (reach_status_priority h)
+  cases hs : b.status with
+  | none => rw [hs] at hb; simp [statusPriority] at hb
+  | some _ => rfl
+
+theorem Prim.notConfigured {env : Env} {a b : St} (hp : Prim env a b)
+    (ha : a.status = some .notConfigured) : b.status = some .notConfigured := by
+  cases hp with
+  | setNotConfigured => rfl
+  | mergeStatus old =>
+    show updateStatus old a.status = _
+    rw [ha]; exact updateStatus_notConfigured_right _
+  | query key p _ _ =>
+    show updateStatus a.status _ = _
+    rw [ha]; exact updateStatus_notConfigured_left _
+  | _ => exact ha
+
+/-- NOT_CONFIGURED is absorbing. -/
+theorem reach_notConfigured {env : Env} {a b : St} (h : Reach env a b)
+    (ha : a.status = some .notConfigured) : b.status = some .notConfigured :=
+  Reach.invariant (I := fun st => st.status = some .notConfigured) (fun _ _ hp => hp.notConfigured)
+    h ha
+
+/-! #### Providers that never answer `""` -/
+
+/-- Every provider answer carries a non-empty status. -/
+def AnswersNonEmpty (env : Env) : Prop :=
+  ∀ p, env.bs = some p → ∀ k, (p.get k).status.isSome
+
+/-- Every provider answer carries one of the four constants HEALTHY, STALE, STORE_ERROR,
+NOT_CONFIGURED (the situation the SDK's own provider wrapper produces). -/
+def AnswersFourConstants (env : Env) : Prop :=
+  ∀ p, env.bs = some p → ∀ k, ∃ s, (p.get k).status = some s ∧ s.isConstant = true
+
+theorem AnswersFourConstants.nonEmpty {env : Env} (h : AnswersFourConstants env) :
+    AnswersNonEmpty env := by
+  intro p hp k
+  obtain ⟨s, hs, _⟩ := h p hp k
+  rw [hs]; rfl
+
+/-- Without a provider there are no answers. -/
+theorem AnswersFourConstants.of_no_provider {env : Env} (h : env.bs = none) :
+    AnswersFourConstants env := by
+  intro p hp; rw [h] at hp; cases hp
 
 /-- `none` below every status, then by `Status.priority`. -/
 def statusRank : Option Status → Nat
@@ -555,28 +675,37 @@ theorem statusRank_le_notConfigured (s : Option Status) :
     statusRank s ≤ statusRank (some .notConfigured) := by
   cases s with
   | none => exact Nat.zero_le _
-  | some s => cases s <;> decide
+  | some s =>
+    have := s.priority_le_three
+    show s.priority + 1 ≤ 3 + 1
+    omega
 
-theorem Prim.status_rank {env : Env} {a b : St} (hp : Prim env a b) :
+theorem Prim.status_rank {env : Env} (hne : AnswersNonEmpty env) {a b : St} (hp : Prim env a b) :
     statusRank a.status ≤ statusRank b.status := by
   cases hp with
   | setNotConfigured => exact statusRank_le_notConfigured _
   | mergeStatus old => exact statusRank_updateStatus_right _ _
-  | query key p _ _ => exact statusRank_updateStatus_left _ _
+  | query key p hbs _ =>
+    show statusRank a.status ≤ statusRank (updateStatus a.status (p.get key).status)
+    have := hne p hbs key
+    cases hs : (p.get key).status with
+    | none => rw [hs] at this; cases this
+    | some s => exact statusRank_updateStatus_left _ _
   | _ => exact Nat.le_refl _
 
-theorem reach_status_rank {env : Env} {a b : St} (h : Reach env a b) :
-    statusRank a.status ≤ statusRank b.status :=
+theorem reach_status_rank {env : Env} (hne : AnswersNonEmpty env) {a b : St}
+    (h : Reach env a b) : statusRank a.status ≤ statusRank b.status :=
   Reach.invariant₂ (R := fun a b => statusRank a.status ≤ statusRank b.status)
-    (fun _ => Nat.le_refl _) (fun _ _ _ h1 hp => Nat.le_trans h1 hp.status_rank) h
+    (fun _ => Nat.le_refl _) (fun _ _ _ h1 hp => Nat.le_trans h1 (hp.status_rank hne)) h
 
 theorem statusRank_pos_iff (s : Option Status) : 0 < statusRank s ↔ s.isSome := by
   cases s <;> simp [statusRank]
 
-theorem reach_status_some {env : Env} {a b : St} (h : Reach env a b) (ha : a.status.isSome) :
-    b.status.isSome := by
+/-- With a provider that never answers `""`, a status once set stays set. -/
+theorem reach_status_some {env : Env} (hne : AnswersNonEmpty env) {a b : St} (h : Reach env a b)
+    (ha : a.status.isSome) : b.status.isSome := by
   rw [← statusRank_pos_iff] at ha ⊢
-  exact Nat.lt_of_lt_of_le ha (reach_status_rank h)
+  exact Nat.lt_of_lt_of_le ha (reach_status_rank hne h)
 
 end LD
 
@@ -584,3 +713,5 @@ end LD
 #print axioms LD.evaluate_bsQueries_nodup
 #print axioms LD.Reach.pconsistent
 #print axioms LD.reach_status_some
+#print axioms LD.reach_status_priority
+#print axioms LD.reach_notConfigured
